@@ -1,5 +1,6 @@
 import Sx.Sys
 import Sx.Lemmas.ContractAll
+import Sx.Lemmas.Backend
 /-
   C19 (driver side) — every SPI request the driver issues is valid for the documented SPI
   interface: register reads and writes carry 1 to 4 bytes, buffer transfers at most 2047 bytes,
@@ -302,3 +303,171 @@ example : (Sys.step {} { world := { chip := Chip.init } } (.api .create [] [])).
   decide +kernel
 
 end Sx
+
+/-! ## The bundled SPI backends (`Sx/Model/Backend.lean`) -/
+
+namespace Sx.Backend
+
+/-- the transaction the SPI interface documents for a read of `n` bytes at `reg`: the address with
+    the write bit clear, then `n` idle bytes while the chip answers -/
+def readFrame (reg n : Nat) : List UInt8 := byte reg :: zeros n
+/-- … and for a write: the address with the write bit set, then the data bytes in order -/
+def writeFrame (reg : Nat) (data : List UInt8) : List UInt8 := byte (reg + 128) :: data
+
+/-- the first byte of a read frame has the write bit clear, that of a write frame has it set, and
+    the low seven bits are the address -/
+theorem C19_backend_write_bit : ∀ reg, reg ≤ 0x7f →
+    (byte reg).toNat = reg ∧ (byte (reg + 128)).toNat = reg + 128 := by
+  decide +kernel
+
+/-- which backend -/
+inductive Impl | linux | esp
+  deriving DecidableEq
+
+def readRegisters : Impl → Nat → Nat → Wire → Out
+  | .linux => linReadRegisters | .esp => espReadRegisters
+def readBuffer : Impl → Nat → Nat → Wire → Out
+  | .linux => linReadBuffer | .esp => espReadBuffer
+def writeRegister : Impl → Nat → List UInt8 → Wire → Out
+  | .linux => linWriteRegister | .esp => espWriteRegister
+def writeBuffer : Impl → Nat → List UInt8 → Wire → Out
+  | .linux => linWriteBuffer | .esp => espWriteBuffer
+
+/-- **C19 (backends), register read.** For either backend, every register address, every length
+    1..4, every byte clocked in during the address phase and every answer of the chip: exactly one
+    transaction, whose bytes are the address with the write bit clear followed by idle bytes; the
+    call returns 0 and stores the chip's bytes most significant first. -/
+theorem C19_backend_read_registers (i : Impl) (reg n : Nat) (hr : reg ≤ 0x7f) (h1 : 1 ≤ n) (h4 : n ≤ 4)
+    (g : UInt8) (ans : List UInt8) (hl : ans.length = n) :
+    readRegisters i reg n { garbage := g, miso := ans } =
+      { rc := 0, frames := [readFrame reg n], word := some (msbFirst ans) } := by
+  have hn : ¬ (n = 0 ∨ n > 4) := by omega
+  cases i with
+  | linux =>
+    simp only [readRegisters, linReadRegisters, Gen.LIN_read_registers_GUARD, if_neg hn, ne_eq, not_true_eq_false,
+      if_false, and_7f_of_le reg hr, leBytes_small n reg (by omega), lin_word g ans n h1 h4 hl, readFrame]
+  | esp =>
+    simp only [readRegisters, espReadRegisters, Gen.ESP_read_registers_GUARD, if_neg hn, ne_eq, not_true_eq_false,
+      if_false, and_7f_of_le' reg hr, readFrame]
+    have := esp_word ans n h4 hl
+    simp only [rxData] at this ⊢
+    rw [this]
+
+/-- **C19 (backends), register write.** Exactly one transaction: the address with the write bit
+    set, then the data bytes in order; the call returns 0. -/
+theorem C19_backend_write_register (i : Impl) (reg : Nat) (hr : reg ≤ 0x7f) (data : List UInt8)
+    (h1 : 1 ≤ data.length) (h4 : data.length ≤ 4) (g : UInt8) (ans : List UInt8) :
+    writeRegister i reg data { garbage := g, miso := ans } = { rc := 0, frames := [writeFrame reg data] } := by
+  have hn : ¬ (data.length = 0 ∨ data.length > 4) := by omega
+  cases i with
+  | linux =>
+    simp only [writeRegister, linWriteRegister, Gen.LIN_write_register_GUARD, if_neg hn, ne_eq, not_true_eq_false,
+      if_false, or_80_of_le reg hr, writeFrame]
+  | esp =>
+    simp only [writeRegister, espWriteRegister, Gen.ESP_write_register_GUARD, if_neg hn, or_80_of_le reg hr, writeFrame]
+
+/-- **C19 (backends), buffer read** of 1..2047 bytes: one transaction, the chip's bytes in order. -/
+theorem C19_backend_read_buffer (i : Impl) (reg n : Nat) (hr : reg ≤ 0x7f) (h1 : 1 ≤ n) (hm : n ≤ 2047)
+    (g : UInt8) (ans : List UInt8) (hl : ans.length = n) :
+    readBuffer i reg n { garbage := g, miso := ans } = { rc := 0, frames := [readFrame reg n], buf := some ans } := by
+  cases i with
+  | linux =>
+    have e := rxBytes_exact g ans n hl
+    simp only [readBuffer, linReadBuffer, Gen.SPI_MAX_TRANSFER_SIZE, if_neg (show ¬ n < 1 by omega),
+      if_neg (show ¬ n > 2047 by omega), ne_eq, not_true_eq_false, if_false, and_7f_of_le reg hr, readFrame, e]
+  | esp =>
+    have e := rxData_exact ans n hl
+    simp only [rxData] at e
+    simp only [readBuffer, espReadBuffer, ne_eq, not_true_eq_false, if_false, and_7f_of_le' reg hr, readFrame, rxData, e]
+
+/-- **C19 (backends), buffer write** of 1..2047 bytes: one transaction, address with the write bit,
+    then the caller's bytes in order. -/
+theorem C19_backend_write_buffer (i : Impl) (reg : Nat) (hr : reg ≤ 0x7f) (data : List UInt8)
+    (h1 : 1 ≤ data.length) (hm : data.length ≤ 2047) (g : UInt8) (ans : List UInt8) :
+    writeBuffer i reg data { garbage := g, miso := ans } = { rc := 0, frames := [writeFrame reg data] } := by
+  cases i with
+  | linux =>
+    simp [writeBuffer, linWriteBuffer, Gen.SPI_MAX_TRANSFER_SIZE, show ¬ data.length < 1 by omega,
+      show ¬ data.length > 2047 by omega, or_80_of_le reg hr, writeFrame]
+  | esp => simp [writeBuffer, espWriteBuffer, or_80_of_le reg hr, writeFrame]
+
+/-- **C19 (backends), failures.** Whatever the request, a transaction that fails (the primitive
+    reports a non-zero `errno` / `esp_err_t`) is never reported as success, and no call issues more
+    than one transaction. -/
+theorem C19_backend_failure_reported (i : Impl) (reg n : Nat) (data : List UInt8) (w : Wire) (hf : w.fail ≠ 0) :
+    (∀ o ∈ [readRegisters i reg n w, readBuffer i reg n w, writeRegister i reg data w, writeBuffer i reg data w],
+      o.frames.length ≤ 1 ∧ (o.frames ≠ [] → o.rc ≠ 0)) := by
+  intro o ho
+  simp only [List.mem_cons, List.mem_nil_iff, or_false] at ho
+  cases i <;> rcases ho with rfl | rfl | rfl | rfl <;>
+    simp only [readRegisters, readBuffer, writeRegister, writeBuffer, linReadRegisters, linReadBuffer, linWriteRegister,
+      linWriteBuffer, espReadRegisters, espReadBuffer, espWriteRegister, espWriteBuffer] <;>
+    (repeat' split) <;> simp_all
+
+/-- **C19 (backends), out-of-contract lengths.** A register transfer of 0 or more than 4 bytes is
+    refused by both backends without a transaction; the Linux backend also refuses a buffer
+    transfer above 2047 bytes, and no transaction it issues is longer than the local arrays it
+    is staged in. -/
+theorem C19_backend_lengths_guarded (i : Impl) (reg n : Nat) (data : List UInt8) (w : Wire) :
+    ((n = 0 ∨ n > 4) → (readRegisters i reg n w).rc ≠ 0 ∧ (readRegisters i reg n w).frames = []) ∧
+    ((data.length = 0 ∨ data.length > 4) → (writeRegister i reg data w).rc ≠ 0 ∧ (writeRegister i reg data w).frames = []) ∧
+    (∀ f ∈ (linReadRegisters reg n w).frames, f.length ≤ 8) ∧
+    (∀ f ∈ (linWriteRegister reg data w).frames, f.length ≤ Gen.LIN_write_register_tmp_SIZE) ∧
+    (∀ f ∈ (linReadBuffer reg n w).frames, f.length ≤ Gen.LIN_read_buffer_tx_buf_SIZE ∧ f.length ≤ Gen.LIN_read_buffer_rx_buf_SIZE) ∧
+    (∀ f ∈ (linWriteBuffer reg data w).frames, f.length ≤ Gen.LIN_write_buffer_tx_buf_SIZE) ∧
+    (n > 2047 → (linReadBuffer reg n w).rc ≠ 0 ∧ (linReadBuffer reg n w).frames = []) ∧
+    (data.length > 2047 → (linWriteBuffer reg data w).rc ≠ 0 ∧ (linWriteBuffer reg data w).frames = []) := by
+  have lz : ∀ k, (zeros k).length = k := zeros_length
+  refine ⟨?_, ?_, ?_, ?_, ?_, ?_, ?_, ?_⟩
+  · intro h; cases i <;> simp [readRegisters, linReadRegisters, espReadRegisters, Gen.LIN_read_registers_GUARD,
+      Gen.ESP_read_registers_GUARD, h, EINVAL_LEN, Gen.ESP_ERR_INVALID_ARG]
+  · intro h; cases i <;> simp only [writeRegister, linWriteRegister, espWriteRegister, Gen.LIN_write_register_GUARD,
+      Gen.ESP_write_register_GUARD, if_pos h, EINVAL_LEN, Gen.ESP_ERR_INVALID_ARG] <;> decide
+  · intro f hf
+    simp only [linReadRegisters, Gen.LIN_read_registers_GUARD] at hf
+    split at hf
+    · simp at hf
+    · rename_i hn
+      have e : f = leBytes (n + 1) ((reg % 256) &&& 0x7f) := by split at hf <;> simpa using hf
+      have : ∀ k x, (leBytes k x).length = k := by
+        intro k; induction k with
+        | zero => intro x; rfl
+        | succ k ih => intro x; simp [leBytes, ih]
+      rw [e, this]; omega
+  · intro f hf
+    simp only [linWriteRegister, Gen.LIN_write_register_GUARD] at hf
+    split at hf
+    · simp at hf
+    · rename_i hn
+      have e : f = byte (reg ||| 0x80) :: data := by split at hf <;> simpa using hf
+      rw [e]; simp only [List.length_cons, Gen.LIN_write_register_tmp_SIZE]; omega
+  · intro f hf
+    simp only [linReadBuffer, Gen.SPI_MAX_TRANSFER_SIZE] at hf
+    split at hf
+    · simp at hf
+    · split at hf
+      · simp at hf
+      · have e : f = byte ((reg % 256) &&& 0x7f) :: zeros n := by split at hf <;> simpa using hf
+        rw [e]; simp only [List.length_cons, lz, Gen.LIN_read_buffer_tx_buf_SIZE, Gen.LIN_read_buffer_rx_buf_SIZE]; omega
+  · intro f hf
+    simp only [linWriteBuffer, Gen.SPI_MAX_TRANSFER_SIZE] at hf
+    split at hf
+    · simp at hf
+    · split at hf
+      · simp at hf
+      · have e : f = byte (reg ||| 0x80) :: data := by split at hf <;> simpa using hf
+        rw [e]; simp only [List.length_cons, Gen.LIN_write_buffer_tx_buf_SIZE]; omega
+  · intro h
+    simp [linReadBuffer, Gen.SPI_MAX_TRANSFER_SIZE, show ¬ n < 1 by omega, h, Gen.ENOMEM]
+  · intro h
+    simp [linWriteBuffer, Gen.SPI_MAX_TRANSFER_SIZE, show ¬ data.length < 1 by omega, h, Gen.ENOMEM]
+
+/-- non-vacuity / a concrete instance: reading the three carrier registers through the Linux backend -/
+example : linReadRegisters 0x06 3 { garbage := 0xa5, miso := [0x6c, 0x80, 0x01] } =
+    { rc := 0, frames := [[0x06, 0, 0, 0]], word := some 0x6c8001 } := by decide +kernel
+example : espWriteRegister 0x06 [0x6c, 0x80, 0x01] {} = { rc := 0, frames := [[0x86, 0x6c, 0x80, 0x01]] } := by
+  decide +kernel
+example : (linReadBuffer 0 2048 {}).rc = 12 ∧ (linReadRegisters 1 5 {}).rc = -1 ∧ (espReadRegisters 1 0 {}).rc = 258 := by
+  decide +kernel
+
+end Sx.Backend
